@@ -376,6 +376,12 @@ fn has_operator_char(text: &str) -> bool {
     text.contains('|') || text.contains('&') || text.contains('<') || text.contains('>')
 }
 
+/// `NAME=value` words are taken off the line as assignments before operators
+/// are looked for, and only while they are untagged: they keep their tag.
+fn is_assignment_word(text: &str) -> bool {
+    libs::re::re_contains(text, r"^[a-zA-Z0-9_]+=")
+}
+
 pub fn expand_glob(tokens: &mut types::Tokens) {
     let mut idx: usize = 0;
     let mut buff = Vec::new();
@@ -825,7 +831,8 @@ pub fn expand_env(sh: &Shell, tokens: &mut types::Tokens) {
     for (i, text) in buff.iter().rev() {
         // a value is data: operator characters it brings into an unquoted
         // word must not be read as syntax by the later passes
-        if tokens[*i].0.is_empty() && !has_operator_char(&tokens[*i].1) && has_operator_char(text) {
+        if tokens[*i].0.is_empty() && !is_assignment_word(&tokens[*i].1)
+                && !has_operator_char(&tokens[*i].1) && has_operator_char(text) {
             tokens[*i].0 = String::from("\"");
         }
         tokens[*i].1 = text.to_string();
@@ -909,7 +916,7 @@ fn do_command_substitution_for_dollar(sh: &mut Shell, tokens: &mut types::Tokens
             line = result.to_string();
         }
 
-        if got_operator && sep.is_empty() {
+        if got_operator && sep.is_empty() && !is_assignment_word(token) {
             data_words.push(idx);
         }
         buff.insert(idx, line.clone());
@@ -1003,7 +1010,8 @@ fn do_command_substitution_for_dot(sh: &mut Shell, tokens: &mut types::Tokens) {
                     };
 
                     _output = cr.stdout.trim().to_string();
-                    if has_operator_char(&_output) && sep.is_empty() && !data_words.contains(&idx) {
+                    if has_operator_char(&_output) && sep.is_empty() && !is_assignment_word(token)
+                            && !data_words.contains(&idx) {
                         data_words.push(idx);
                     }
                 }
